@@ -226,6 +226,10 @@ class Interp:
                 return (0, self.P - 1)
             if c.name == "value" and FF in c.key():
                 return (0, self.P - 1)
+            if c.name in ("checked_rem", "rem_euclid", "checked_rem_euclid", "wrapping_rem") and len(t[2]) == 2 and not c.local:
+                self.iv(t[2][0], env, rels, fn)
+                b = self.iv(t[2][1], env, rels, fn)
+                return (0, max(b[1] - 1, 0))
             if c.name in ("min",) and len(t[2]) == 2:
                 a, b = self.iv(t[2][0], env, rels, fn), self.iv(t[2][1], env, rels, fn)
                 return (min(a[0], b[0]), min(a[1], b[1]))
@@ -242,7 +246,14 @@ class Interp:
             return unk()
         return unk()
 
-    def decide(self, c, env, rels, fn):
+    def decide(self, c, env, rels, fn, depth=0):
+        if mir.is_call(c) and c[1].local and depth < 3:
+            # a predicate of the modulus in a private (const) function: `fits_in_u128::<P>()`
+            gs = [g for g in self.prog.resolve(c[1]) if g.unit == fn.unit and g.kind != "Closure" and g is not fn]
+            if len(gs) == 1 and gs[0].terms.ret is not None:
+                env2 = {i + 1: self.iv(a, env, rels, fn) for i, a in enumerate(c[2])}
+                return self.decide(strip(gs[0].terms.ret), env2, frozenset(), gs[0], depth + 1)
+            return None
         if not (isinstance(c, tuple) and c[0] == "bin" and c[1] in ("Eq", "Ne", "Lt", "Le", "Gt", "Ge")):
             return None
         a, b = self.iv(c[2], env, rels, fn), self.iv(c[3], env, rels, fn)
@@ -458,7 +469,20 @@ def nb_inv(prog, bodies):
                             it.refine(c, truth, {}, frozenset(), fn)
                         except Exception:
                             pass
-                    lo, hi = it.iv(v, {}, frozenset(), fn)
+                    env0 = {}
+                    if fn.kind == "Closure":
+                        # a closure handed to Option::map / and_then: its parameter is the payload of the receiver, evaluated
+                        # in the enclosing function (`v.checked_rem(P).map(|v| FiniteField { v })`)
+                        for par in prog.lib_fns:
+                            if not fn.npath.startswith(par.npath + "::{closure") or par.kind == "Closure":
+                                continue
+                            for cs in par.terms.calls:
+                                if cs.callee.name in ("map", "and_then", "map_or", "map_or_else", "filter_map") and len(cs.args) >= 2 and \
+                                        any(isinstance(x, tuple) and x[:2] == ("agg", "closure") and x[2] == fn.npath
+                                            for x in mir.subterms(cs.args[-1])):
+                                    itp = Interp(prog, P, par)
+                                    env0[2] = itp.iv(cs.args[0], {}, frozenset(), par)
+                    lo, hi = it.iv(v, env0, frozenset(), fn)
                     if hi > P - 1:
                         bad.append("%s:%s builds FiniteField{v: %s} whose value can reach %s for P = %s: not a residue "
                                    "(equality, hashing and value() then disagree with arithmetic mod P)"
